@@ -5,6 +5,7 @@
 # the Free Software Foundation; either version 2 of the License, or
 # (at your option) any later version.
 
+import copy
 import struct
 import codecs
 from struct import unpack, pack
@@ -587,6 +588,12 @@ class ID3FramesSpec(Spec):
 
     def read(self, header, frame, data):
         from ._tags import ID3Tags
+
+        if header.f_unsynch:
+            # the enclosing frame (or the whole tag for < v2.4) has already
+            # been de-unsynchronised, don't do it again for the sub-frames
+            header = copy.copy(header)
+            header._flags &= ~0x80
 
         tags = ID3Tags()
         return tags, tags._read(header, data)
